@@ -1816,3 +1816,102 @@ package ir
 //@   ensures len(result) == len(term.Handlers) + ite(typeis(term.DefaultUnwindTarget, "*Block"), 1, 0) && forall(k, 0, len(term.Handlers), result[k] == blk(term.Handlers[k]))
 //@   ensures typeis(term.DefaultUnwindTarget, "*Block") ==> result[len(term.Handlers)] == blk(term.DefaultUnwindTarget)
 //@   loop 0: invariant 0 <= range_i && range_i <= len(term.Handlers) && len(term.Successors) == range_i && forall(k, 0, range_i, term.Successors[k] == blk(term.Handlers[k]))
+
+//@ # ---------------------------------------------------------------- C03 (remaining constructors) ---
+//@ # The constructors the generator does not cover (multi-statement bodies): operands recorded exactly,
+//@ # never rejected when LLVM's operand rule holds.
+//@ func NewExtractValue
+//@   props C03
+//@   requires x != nil && aggok(vtype(x), indices)
+//@   assigns caches
+//@   ensures result != nil && fresh(result) && result.X == x && len(result.Indices) == len(indices) && forall(k, 0, len(indices), result.Indices[k] == indices[k])
+//@   ensures result.Typ == old(aggty(vtype(x), indices))
+//@ # insertvalue: the inserted element has the type found at the index path
+//@ func NewInsertValue
+//@   props C03
+//@   requires x != nil && elem != nil && aggok(vtype(x), indices) && aggty(vtype(x), indices) != nil && teq(aggty(vtype(x), indices), vtype(elem))
+//@   assigns caches
+//@   ensures result != nil && fresh(result) && result.X == x && result.Elem == elem && len(result.Indices) == len(indices) && forall(k, 0, len(indices), result.Indices[k] == indices[k])
+//@   ensures result.Typ == vtype(x)
+//@ func NewIndirectBr
+//@   props C03
+//@   assigns nothing
+//@   ensures result != nil && fresh(result) && result.Addr == addr && len(result.ValidTargets) == len(validTargets) && forall(k, 0, len(validTargets), result.ValidTargets[k] == boxed(validTargets[k]))
+//@   loop 0: invariant 0 <= range_i && range_i <= len(validTargets) && len(targets) == range_i && (cap(targets) == 0 || fresh(targets)) && forall(k, 0, range_i, targets[k] == boxed(validTargets[k]))
+//@ func NewCallBr
+//@   props C03
+//@   requires callee != nil && isFuncPtr(vtype(callee))
+//@   assigns caches
+//@   ensures result != nil && fresh(result) && result.Callee == callee && result.NormalRetTarget == boxed(normalRetTarget) && len(result.Args) == len(args) && forall(k, 0, len(args), result.Args[k] == args[k])
+//@   ensures len(result.OtherRetTargets) == len(otherRetTargets) && forall(k, 0, len(otherRetTargets), result.OtherRetTargets[k] == boxed(otherRetTargets[k]))
+//@   ensures result.Typ == calleeRet(vtype(callee))
+//@   loop 0: invariant 0 <= range_i && range_i <= len(otherRetTargets) && len(otherRets) == range_i && (cap(otherRets) == 0 || fresh(otherRets)) && forall(k, 0, range_i, otherRets[k] == boxed(otherRetTargets[k]))
+//@ func NewCatchSwitch
+//@   props C03
+//@   assigns nothing
+//@   ensures result != nil && fresh(result) && result.ParentPad == parentPad && len(result.Handlers) == len(handlers) && forall(k, 0, len(handlers), result.Handlers[k] == boxed(handlers[k]))
+//@   ensures (defaultUnwindTarget == nil ==> result.DefaultUnwindTarget == nil) && (defaultUnwindTarget != nil ==> result.DefaultUnwindTarget == boxed(defaultUnwindTarget))
+//@   loop 0: invariant 0 <= range_i && range_i <= len(handlers) && len(hs) == range_i && (cap(hs) == 0 || fresh(hs)) && forall(k, 0, range_i, hs[k] == boxed(handlers[k]))
+//@ func NewCleanupRet
+//@   props C03
+//@   assigns nothing
+//@   ensures result != nil && fresh(result) && result.CleanupPad == boxed(cleanupPad)
+//@   ensures (unwindTarget == nil ==> result.UnwindTarget == nil) && (unwindTarget != nil ==> result.UnwindTarget == boxed(unwindTarget))
+//@ func NewCase
+//@   props C03
+//@   assigns nothing
+//@   ensures result != nil && fresh(result) && result.X == x && result.Target == boxed(target)
+//@ func NewClause
+//@   props C03
+//@   assigns nothing
+//@   ensures result != nil && fresh(result) && result.Type == clauseType && result.X == x
+//@ func NewIncoming
+//@   props C03
+//@   assigns nothing
+//@   ensures result != nil && fresh(result) && result.X == x && result.Pred == boxed(pred)
+//@ func NewParam
+//@   props C03
+//@   assigns nothing
+//@   ensures result != nil && fresh(result) && result.LocalName == name && result.LocalID == 0 && result.Typ == typ
+//@ func NewBlock
+//@   props C03
+//@   assigns nothing
+//@   ensures result != nil && fresh(result) && result.LocalName == name && result.LocalID == 0 && len(result.Insts) == 0 && result.Term == nil
+//@ func NewGlobal
+//@   props C03
+//@   assigns nothing
+//@   ensures result != nil && fresh(result) && result.GlobalName == name && result.GlobalID == 0 && result.ContentType == contentType && result.Init == nil
+//@   ensures result.Typ != nil && fresh(result.Typ) && result.Typ.ElemType == contentType && result.Typ.AddrSpace == 0
+//@ func NewGlobalDef
+//@   props C03
+//@   requires init != nil
+//@   assigns caches
+//@   ensures result != nil && fresh(result) && result.GlobalName == name && result.GlobalID == 0 && result.ContentType == vtype(init) && result.Init == init
+//@   ensures result.Typ != nil && fresh(result.Typ) && result.Typ.ElemType == vtype(init) && result.Typ.AddrSpace == 0
+//@ # an alias has the (pointer) type of its aliasee
+//@ func NewAlias
+//@   props C03
+//@   requires aliasee != nil && typeis(vtype(aliasee), "*types.PointerType")
+//@   assigns caches
+//@   ensures result != nil && fresh(result) && result.GlobalName == name && result.GlobalID == 0 && result.Aliasee == aliasee && boxed(result.Typ) == vtype(aliasee)
+//@ # a function's signature lists the parameter types in order; its type is a pointer to the signature
+//@ func NewFunc
+//@   props C03
+//@   requires forall(k, 0, len(params), params[k] != nil)
+//@   assigns nothing
+//@   ensures result != nil && fresh(result) && result.GlobalName == name && result.GlobalID == 0 && len(result.Params) == len(params) && forall(k, 0, len(params), result.Params[k] == params[k])
+//@   ensures result.Sig != nil && fresh(result.Sig) && result.Sig.RetType == retType && !result.Sig.Variadic && len(result.Sig.Params) == len(params) && forall(k, 0, len(params), result.Sig.Params[k] == params[k].Typ)
+//@   ensures result.Typ != nil && fresh(result.Typ) && result.Typ.ElemType == boxed(result.Sig) && result.Typ.AddrSpace == 0
+//@   loop 0: invariant 0 <= range_i && range_i <= len(params) && len(paramTypes) == len(params) && fresh(paramTypes) && forall(k, 0, range_i, paramTypes[k] == params[k].Typ)
+//@ func NewArg
+//@   props C03
+//@   assigns nothing
+//@   ensures result != nil && fresh(result) && result.Value == x && len(result.Attrs) == len(attrs) && forall(k, 0, len(attrs), result.Attrs[k] == attrs[k])
+//@ func NewOperandBundle
+//@   props C03
+//@   assigns nothing
+//@   ensures result != nil && fresh(result) && result.Tag == tag && len(result.Inputs) == len(inputs) && forall(k, 0, len(inputs), result.Inputs[k] == inputs[k])
+//@ func NewInlineAsm
+//@   props C03
+//@   assigns nothing
+//@   ensures result != nil && fresh(result) && result.Typ == typ && result.Asm == asm && result.Constraint == constraint
